@@ -94,8 +94,8 @@ def _parse_comments(tokens: TokenIterator):
         while comment:
             comment, found, meta = comment.rpartition('::')
             if found:
-                key, _, value = meta.partition(' ')
-                metadata[key] = value.rstrip()
+                key, _, value = meta.rstrip().partition(' ')
+                metadata[key] = value
     return metadata
 
 
